@@ -28,7 +28,7 @@ RULE = ("cases = (initial hosts-file content, backup present or not, host map / 
         "lines, other ports' markers, stale own markers (also last / preceded by blank lines), non-ASCII white "
         "space, undecodable bytes, 1-200 lines; maps of 0-50 hosts; histories of <= 30 updates followed by restore; "
         "every crash point k of every single-instance case; a refused operation at every index of small cases; "
-        "segment-level and random (thorough: exhaustive) interleavings of two instances; complete helper sessions through the real firewall.main() (fake packet-filter method and stdin: ROUTES, NSLIST, PORTS, GO, HOST lines, then EOF / read error / bad command) with the IPv4 and/or IPv6 teardown raising and with single file-system calls (chown, chmod, rename, close, write, open, stat, read of the first or a later HOST) refused; crash-recovery histories (a helper dies between writing its temporary and the rename, optionally the admin edits the file, a new session on the same port publishes fewer hosts and restores); a case is non-trivial "
+        "segment-level and random (thorough: exhaustive) interleavings of two instances; complete helper sessions through the real firewall.main() (fake packet-filter method and stdin: ROUTES, NSLIST, PORTS, GO, HOST lines, then EOF / read error / bad command) with the IPv4 and/or IPv6 teardown raising and with single file-system calls (chown, chmod, rename, close, write, open, stat, read of the first or a later HOST) refused, and with the helper's stderr/stdout failing (EIO, EPIPE, closed file) from a chosen point on at verbosity 0-3 through the real helpers.log/debug*; crash-recovery histories (a helper dies between writing its temporary and the rename, optionally the admin edits the file, a new session on the same port publishes fewer hosts and restores); a case is non-trivial "
         "when a line was filtered, a backup made, a fault or crash injected, or two instances overlapped; "
         "distinct = distinct canonical case description")
 MANIFEST = dict(
@@ -1029,29 +1029,65 @@ class _FakeMethod:
 class _Stdin:
     """The helper's stdin: the given lines, then EOF or a read error."""
 
-    def __init__(self, data, then_error):
+    def __init__(self, data, then_error, on_eof=None):
         import io
         self.f = io.BytesIO(data)
         self.then_error = then_error
+        self.on_eof = on_eof
 
     def readline(self, n=-1):
         r = self.f.readline(n)
+        if not r and self.on_eof:
+            self.on_eof()
         if not r and self.then_error:
             raise IOError(errno.ECONNRESET, 'parent went away')
         return r
 
 
+class _DyingStream:
+    """The helper's stderr / stdout (sys.stderr, sys.stdout as helpers.log uses them): swallows output,
+    and from a chosen point on every write and flush fails -- `after` = number of writes that still
+    succeed, or 'eof' = it dies when the helper's stdin reaches its end (the terminal went away)."""
+
+    def __init__(self, kind, after):
+        self.kind, self.after = kind, after
+        self.n = 0
+        self.dead = False
+
+    def _chk(self):
+        if self.dead or (isinstance(self.after, int) and self.n >= self.after):
+            if self.kind == 'eio':
+                raise OSError(errno.EIO, 'Input/output error')
+            if self.kind == 'epipe':
+                raise BrokenPipeError(errno.EPIPE, 'Broken pipe')
+            raise ValueError('I/O operation on closed file')
+
+    def write(self, s):
+        self._chk()
+        self.n += 1
+        return len(s)
+
+    def flush(self):
+        self._chk()
+
+    def isatty(self):
+        return False
+
+
 def helper_case(ctx, content, hosts, with_v4, with_v6, fail, end='eof', exc='fatal', setup_fails=False,
-                fs_fail=()):
+                fs_fail=(), verbose=0, log_fail=None):
     """One complete helper session through the real firewall.main() on the sandbox hosts file.
     hosts: list of (name, ip) HOST lines; fail: families ('4', '6') whose teardown raises;
     end: 'eof' | 'ioerror' | 'bad-command'; fs_fail: [(operation name, occurrence)] file-system calls of
-    the session that are refused once with OSError (e.g. ('chown', 1) = the chown of the first HOST)."""
+    the session that are refused once with OSError (e.g. ('chown', 1) = the chown of the first HOST);
+    verbose: helpers.verbose (-v count) with the REAL helpers.log/debug*; log_fail = (kind, after): the helper's
+    stderr and stdout fail with EIO / EPIPE / ValueError(closed file) from that point on."""
     import io
     import socket
     case = Case('helper')
     desc = dict(stream='helper', content=opt(content), hosts=[list(h) for h in hosts], v4=with_v4, v6=with_v6,
-                fail=sorted(fail), end=end, exc=exc, setup_fails=setup_fails, fs_fail=[list(x) for x in fs_fail])
+                fail=sorted(fail), end=end, exc=exc, setup_fails=setup_fails, fs_fail=[list(x) for x in fs_fail],
+                verbose=verbose, log_fail=list(log_fail) if log_fail else None)
     case.desc = desc
     p6, p4 = (12300 if with_v6 else 0), 12299
     port = p6 or p4
@@ -1081,7 +1117,21 @@ def helper_case(ctx, content, hosts, with_v4, with_v6, fail, end='eof', exc='fat
             return real(hm, p)
         fw.restore_etc_hosts = in_restore
         stdout = io.BytesIO()
-        fw.setup_daemon = lambda: (_Stdin(data, end == 'ioerror'), stdout)
+        import sys as _sys
+        saved_std = (_sys.stdout, _sys.stderr, helpers.verbose, fw.log)
+        dying = _DyingStream(*log_fail) if log_fail else None
+
+        def on_eof():
+            if dying is not None and dying.after == 'eof':
+                dying.dead = True
+        if verbose or log_fail:
+            # the real logging path: helpers.log / debug1-3 writing to the process's stderr
+            fw.log = sb.saved['log']
+            helpers.verbose = verbose
+            sink = dying or _DyingStream('closed', 1 << 60)
+            _sys.stdout = sink
+            _sys.stderr = sink
+        fw.setup_daemon = lambda: (_Stdin(data, end == 'ioerror', on_eof), stdout)
         fw.get_method = lambda name: method
         fw.flush_systemd_dns_cache = lambda: None
         ended = 'returned'
@@ -1091,6 +1141,7 @@ def helper_case(ctx, content, hosts, with_v4, with_v6, fail, end='eof', exc='fat
             except Exception as e:  # noqa
                 ended = type(e).__name__
         finally:
+            _sys.stdout, _sys.stderr, helpers.verbose, fw.log = saved_std
             fw.setup_daemon = saved['setup_daemon']
             fw.get_method = saved['get_method']
             fw.restore_etc_hosts = saved['restore']
@@ -1107,7 +1158,10 @@ def helper_case(ctx, content, hosts, with_v4, with_v6, fail, end='eof', exc='fat
     ctx.hist('helper:end=%s,fail=%s%s' % (end, ''.join(sorted(fail)) or '-',
                                           ',fs=' + '+'.join(k for k, _n in fs_fail) if fs_fail else ''))
     published = bool(hosts) and not setup_fails
-    tail = '-after-fs-error' if fs_fail else '-after-teardown-error' if fail else ''
+    tail = '-after-fs-error' if fs_fail else '-after-log-error' if log_fail else \
+        '-after-teardown-error' if fail else ''
+    if verbose or log_fail:
+        ctx.hist('helper:verbose=%d,log=%s' % (verbose, '%s@%s' % tuple(log_fail) if log_fail else 'ok'))
     if published:
         base = [l for l in py_lines(content) if not own(port, l)]
         got = py_lines(after)
@@ -1302,6 +1356,27 @@ def gen_cases(ctx):
             ff.append(('move', 1))
         cases.append(helper_case(ctx, content, hosts, True, False, set(), end=rng.choice(['eof', 'bad-command']),
                                  fs_fail=ff))
+    # the helper's stderr/stdout go away (EIO: closed terminal, EPIPE, closed file) at verbosity 0..3,
+    # through the real helpers.log / debug1-3: the clean-up must still happen
+    for v in (0, 1, 2, 3):
+        for kind_ in ('eio', 'epipe', 'closed'):
+            for after in (0, 'eof', 4):
+                cases.append(helper_case(ctx, base_c, two, True, v % 2 == 1, set(), verbose=v,
+                                         log_fail=(kind_, after)))
+        cases.append(helper_case(ctx, base_c, two, True, True, set(), verbose=v))
+    cases.append(helper_case(ctx, base_c, two, True, True, {'4', '6'}, verbose=2, log_fail=('eio', 'eof')))
+    cases.append(helper_case(ctx, base_c, two, True, False, set(), end='bad-command', verbose=2, log_fail=('eio', 'eof')))
+    cases.append(helper_case(ctx, base_c, two, True, False, set(), end='ioerror', verbose=3, log_fail=('eio', 'eof')))
+    for _ in range(ctx.scale(8, 150)):
+        nh = rng.choice([1, 2, 4])
+        hosts = [(gen_name(rng), gen_ip(rng)) for _ in range(nh)]
+        kind, content = gen_content(rng, 12299, rng.choice(['missing', 'plain', 'nonl', 'blank']))
+        cases.append(helper_case(ctx, content, hosts, True, rng.random() < 0.5,
+                                 {f for f in '4' if rng.random() < 0.3},
+                                 end=rng.choice(['eof', 'eof', 'ioerror', 'bad-command']),
+                                 verbose=rng.choice([0, 1, 2, 2, 3]),
+                                 log_fail=(rng.choice(['eio', 'eio', 'epipe', 'closed']),
+                                           rng.choice(['eof', 0, rng.randrange(0, 40)]))))
     # a helper dies between writing its temporary and the rename; a new session on the same port follows
     many = {'host%02d.example.net' % i: '10.8.0.%d' % i for i in range(6)}
     for cb in (1, 2, 3, 4, 6):
@@ -1449,7 +1524,8 @@ def replay(ctx, rep):
         helper_case(ctx, _unopt(case['content']), [tuple(h) for h in case['hosts']], case['v4'], case['v6'],
                     set(case['fail']), end=case['end'], exc=case.get('exc', 'fatal'),
                     setup_fails=case.get('setup_fails', False),
-                    fs_fail=[tuple(x) for x in case.get('fs_fail', [])])
+                    fs_fail=[tuple(x) for x in case.get('fs_fail', [])], verbose=case.get('verbose', 0),
+                    log_fail=tuple(case['log_fail']) if case.get('log_fail') else None)
     elif st == 'recovery':
         recovery_case(ctx, _unopt(case['content']), case['port'], _hm(case['hm1']), case['crash_back'],
                       _hm(case['hm2']), _unopt(case.get('admin', 'N')) if case.get('admin_edit') else None,
